@@ -308,6 +308,9 @@ def render(reader: io.Reader, writer: io.Writer, allowed: Optional[List[str]] = 
         # Calculate block expansion options.
         expand = Expand.copyFrom(d.expand)
         expand.merge(blockattributes.opts)
+        if options.isSafeModeNz() and blockattributes.opts.specials is False:
+            # '-specials' is not valid in safe mode, not even when an earlier trusted render left it pending.
+            expand.specials = d.expand.specials
         # Translate block.
         if expand.skip is not True:
             text = '\n'.join(lines)
